@@ -1,8 +1,10 @@
 import CJ.Drv.Loop
 import CJ.Drv.ConnHandler
-/-! Driver for C03: the connection-handler model (`conn|…` lines). -/
+import CJ.Drv.ConnStats
+/-! Driver for C03: the connection-handler model (`conn|…` lines) and its statistics transitions (`connstats|…`). -/
 open CJ.Drv
 
 def main : IO Unit := runDriver fun
   | "conn" :: args => ConnHandler.handle args
+  | "connstats" :: args => ConnStats.handle args
   | _ => none
